@@ -22,7 +22,7 @@ Shared == {"claimsP1", "claimsP2", "claimsX2", "claimsP1nosw", "evidenceP2", "ev
 Objects == Shared \cup {"private"}
 Package == {"register", "encMode", "decMode", "codecHelpers"}
 \* operations: what they read and write
-Ops == {"NewClaimsP1", "NewClaimsP2", "NewClaimsX2", "DecodeCBOR", "DecodeJSON", "DecodeCOSE", "DecodeCBORX2", "DecodeJSONX2",
+Ops == {"NewClaimsP1", "NewClaimsP2", "NewClaimsX2", "DecodeCBOR", "DecodeJSON", "DecodeCOSE", "DecodeCBORX2", "DecodeJSONX2", "DecodeDerived",
         "Validate", "Getters", "EncodeCBOR", "EncodeJSON", "ValidateAndEncode", "SignWithSharedClaims", "Verify", "EvidenceJSON",
         "BuildAndSign", "SetterHistory"}
 OnClaims == {"Validate", "Getters", "EncodeCBOR", "EncodeJSON", "ValidateAndEncode", "SignWithSharedClaims"}
